@@ -699,6 +699,10 @@ def run_haplotag(
         if include_unmapped:
             logger.debug("Copying unmapped reads to output")
             for alignment in bam_reader.fetch(contig="*"):
+                # As for all other alignments that cannot be assigned, existing tags are removed
+                alignment.set_tag("HP", value=None)
+                alignment.set_tag("PC", value=None)
+                alignment.set_tag("PS", value=None)
                 bam_writer.write(alignment)
         timers.stop("haplotag-process")
         logger.debug("Processing complete (time: {})".format(timers.elapsed("haplotag-process")))
